@@ -266,10 +266,12 @@ inductive ColorParse where
   deriving Repr, DecidableEq
 
 /-- index of the last `/` (`str::rfind`) -/
-def rfindSlash (s : List Nat) : Option Nat :=
-  match (s.reverse.idxOf? 47) with
-  | some i => some (s.length - 1 - i)
-  | none => none
+def rfindSlash : List Nat → Option Nat
+  | [] => none
+  | b :: rest =>
+    match rfindSlash rest with
+    | some i => some (i + 1)
+    | none => if b = 47 then some 0 else none
 
 def isNameByte (b : Nat) : Bool := (97 ≤ b && b ≤ 122) || (48 ≤ b && b ≤ 57) || b == 45
 
